@@ -58,6 +58,17 @@ func main() {
 			os.Exit(1)
 		}
 		os.Exit(0)
+	case "funcs":
+		// list function keys with source positions (for closures, whose keys are ordinal)
+		p, err := loadProgram("/repo", nil)
+		if err != nil {
+			fmt.Fprintln(os.Stderr, err)
+			os.Exit(2)
+		}
+		for _, fn := range p.allFuncs {
+			fmt.Printf("%-60s %s\n", p.funcKeys[fn], p.posStr(fn.Pos()))
+		}
+		os.Exit(0)
 	case "selftest":
 		code := cmdSelftest(os.Args[2:])
 		cleanupScratch()
